@@ -142,6 +142,9 @@ struct Scenario {
 
 template <class TArchive, class T> static std::string save_str(T obj) { std::string out; SaveObject<TArchive>(obj, out); return out; }
 
+template <class TArchive, class T> static std::string save_enc(T obj, Convert::Utf::UtfType enc) {
+	std::ostringstream os; SerializationOptions o; o.streamOptions.encoding = enc; o.streamOptions.writeBom = true; SaveObject<TArchive>(obj, os, o); return os.str();
+}
 template <class TArchive, class T> static void load_mem(const std::string& in) { T obj{}; LoadObject<TArchive>(obj, in); }
 template <class TArchive, class T> static void load_stream(const std::string& in) {
 	FaultyInBuf buf(in); std::istream is(&buf);
@@ -186,6 +189,13 @@ static std::vector<Scenario> catalogue() {
 	s.push_back({ "xml_load_stream", true, true, [=] { return save_str<XmlArchive>(doc()); }, [](const std::string& in) { load_stream<XmlArchive, Doc>(in); } });
 	s.push_back({ "xml_save_mem", false, false, nullptr, [=](const std::string&) { save_mem<XmlArchive>(doc()); } });
 	s.push_back({ "xml_save_stream", false, true, nullptr, [=](const std::string&) { save_stream<XmlArchive>(doc()); } });
+	// ---- encoded text streams whose characters take several bytes: a stream that fails between the bytes of one character
+	auto astral_rows = [] { auto r = make_rows(3); for (auto& x : r) { std::string n; for (int i = 0; i < 60 + x.id; ++i) n += "\xF0\x9F\x98\x80"; x.name = n; } return r; };      // surrogate pairs straddle the 256-byte chunk boundaries of the reader
+	s.push_back({ "csv_u16_astral_load_stream", true, true, [=] { return save_enc<CsvArchive>(astral_rows(), Convert::Utf::UtfType::Utf16le); }, [](const std::string& in) { load_stream<CsvArchive, std::vector<Row>>(in); } });
+	s.push_back({ "csv_u16_load_stream", true, true, [=] { return save_enc<CsvArchive>(rows(), Convert::Utf::UtfType::Utf16le); }, [](const std::string& in) { load_stream<CsvArchive, std::vector<Row>>(in); } });
+	s.push_back({ "csv_u32_load_stream", true, true, [=] { return save_enc<CsvArchive>(rows(), Convert::Utf::UtfType::Utf32be); }, [](const std::string& in) { load_stream<CsvArchive, std::vector<Row>>(in); } });
+	s.push_back({ "json_u16_load_stream", true, true, [=] { return save_enc<JsonArchive>(doc(), Convert::Utf::UtfType::Utf16be); }, [](const std::string& in) { load_stream<JsonArchive, Doc>(in); } });
+	s.push_back({ "xml_u16_load_stream", true, true, [=] { return save_enc<XmlArchive>(doc(), Convert::Utf::UtfType::Utf16le); }, [](const std::string& in) { load_stream<XmlArchive, Doc>(in); } });
 	// ---- byte containers (MsgPack bin): as the last member, as the root, as elements; the payload is written byte by byte
 	s.push_back({ "mp_bin_save_stream", false, true, nullptr, [](const std::string&) { save_stream<MsgPackArchive>(make_bindoc(3)); } });
 	s.push_back({ "mp_bin_save_mem", false, false, nullptr, [](const std::string&) { save_mem<MsgPackArchive>(make_bindoc(3)); } });
